@@ -37,23 +37,23 @@ Section Multi.
   Hypothesis Hc : codec_ok (cdc E).
 
   (* state changes that no observable sees: dependency calls and allocations *)
-  Definition quiet (s s' : mstate) : Prop := accts s' = accts s /\ nofault E s s'.
-  Lemma quiet_refl s : quiet s s. Proof. split; [reflexivity|apply nofault_refl]. Qed.
-  Lemma quiet_trans a b c : quiet a b -> quiet b c -> quiet a c.
+  Definition silent (s s' : mstate) : Prop := accts s' = accts s /\ nofault E s s'.
+  Lemma silent_refl s : silent s s. Proof. split; [reflexivity|apply nofault_refl]. Qed.
+  Lemma silent_trans a b c : silent a b -> silent b c -> silent a c.
   Proof. intros [H1 H2] [H3 H4]. split; [congruence|eapply nofault_trans; eauto]. Qed.
-  Lemma rd_quiet s s' : rd E s s' -> quiet s s'.
+  Lemma rd_silent s s' : rd E s s' -> silent s s'.
   Proof. intros (H1 & _ & H2). split; assumption. Qed.
-  Lemma alloc_quiet n s u s' : alloc n s = (Ok u, s') -> quiet s s'.
+  Lemma alloc_silent n s u s' : alloc n s = (Ok u, s') -> silent s s'.
   Proof. intros H. pose proof (alloc_nofault E _ _ _ _ H). apply alloc_ok in H as (_ & H1 & _). split; assumption. Qed.
-  Lemma quiet_balance s s' a k : quiet s s' -> balance E s' a k = balance E s a k.
+  Lemma silent_balance s s' a k : silent s s' -> balance E s' a k = balance E s a k.
   Proof. intros [H _]. apply balance_accts. exact H. Qed.
-  Lemma quiet_tok_at s s' a k : quiet s s' -> tok_at E s' a k = tok_at E s a k.
+  Lemma silent_tok_at s s' a k : silent s s' -> tok_at E s' a k = tok_at E s a k.
   Proof. intros [H _]. apply tok_at_accts. exact H. Qed.
-  Lemma quiet_unchanged F G s s' : quiet s s' -> unchanged_except F G s s'.
+  Lemma silent_unchanged F G s s' : silent s s' -> unchanged_except F G s s'.
   Proof. intros [H _]. apply unchanged_except_accts. exact H. Qed.
-  Lemma quiet_touches L s s' : quiet s s' -> touches L s s'.
+  Lemma silent_touches L s s' : silent s s' -> touches L s s'.
   Proof. intros [H _]. apply touches_accts. exact H. Qed.
-  Lemma quiet_nofault s s' : quiet s s' -> nofault E s s'.
+  Lemma silent_nofault s s' : silent s s' -> nofault E s s'.
   Proof. intros [_ H]. exact H. Qed.
 
   (* ================================================================ *)
@@ -335,19 +335,19 @@ Section Multi.
     multi_out_args E l o acc s = (Ok (args, o'), s') ->
     args = acc ++ out_args_pure l
     /\ o' = set_gasrem o (out_gas_pure l (o_gasRemaining o))
-    /\ quiet s s' /\ allocs s' = allocs s
+    /\ silent s s' /\ allocs s' = allocs s
     /\ Forall (fun x => t_meta (snd x) = None -> t_value (snd x) <> None) l.
   Proof.
     induction l as [|[tok t] r IH]; intros o acc s args o' s' H.
     - cbn [multi_out_args] in H. apply ret_ok in H as [H ->]. inversion H; subst.
       rewrite app_nil_r. split; [reflexivity|]. split; [match goal with |- ?x = set_gasrem ?x _ => destruct x; reflexivity end|].
-      split; [apply quiet_refl|]. split; [reflexivity|constructor].
+      split; [apply silent_refl|]. split; [reflexivity|constructor].
     - cbn [multi_out_args out_args_pure out_gas_pure] in *. destruct (t_meta t) as [m|] eqn:Em.
       + apply bind_ok in H as (b & s1 & H0 & H). apply marshal_tok_ok in H0 as [-> Hrd]. cbv zeta in H.
         apply bind_ok in H as (u & s2 & H0 & H). apply guard_ok in H0 as [_ ->].
         apply IH in H as (-> & -> & Hq & Hal & Hf).
         split; [rewrite <- app_assoc; reflexivity|]. split; [reflexivity|].
-        split; [eapply quiet_trans; [apply rd_quiet; eauto|exact Hq]|].
+        split; [eapply silent_trans; [apply rd_silent; eauto|exact Hq]|].
         split; [rewrite Hal; apply (rd_allocs E _ _ Hrd)|].
         constructor; [cbn [snd]; congruence|exact Hf].
       + apply bind_ok in H as (v & s1 & H0 & H). apply val_of_ok in H0 as [Hv ->].
@@ -393,10 +393,10 @@ Section Multi.
     mp_len : (2 + multi_n_snd i * 3 <= alen (i_args i))%N;       (* every triple was actually read *)
     mp_gas : (mul64 (multi_n_snd i) (g_ESDTNFTMultiTransfer (gas E)) <= i_gas i)%N;
     mp_snd : i_snd i = true;
-    mp_steps : exists s0 s1, quiet s s0
+    mp_steps : exists s0 s1, silent s s0
        /\ snd_steps (i_caller i) (multi_dst i) (multi_same i) (must_verify_payable i (multi_min 2 (multi_n_snd i))) (i_rae i)
             (multi_snd_triples i) s0 s1 lst
-       /\ quiet s1 s';
+       /\ silent s1 s';
     mp_out : o = multi_sender_out i lst }.
 
   Lemma multi_transfer_sender_spec i s o s' :
@@ -416,13 +416,13 @@ Section Multi.
     apply bind_ok in H as (u5 & s0 & H0 & H). apply guard_ok in H0 as [G6 ->].
     apply bind_ok in H as (u6 & s0 & H0 & H). apply guard_ok in H0 as [G7 ->].
     apply bind_ok in H as (u7 & s1 & Hload & H).
-    assert (Q1 : quiet s s1).
-    { destruct (multi_same i); [apply rd_quiet; eapply load_account_ok; eauto|apply ret_ok in Hload as [_ ->]; apply quiet_refl]. }
+    assert (Q1 : silent s s1).
+    { destruct (multi_same i); [apply rd_silent; eapply load_account_ok; eauto|apply ret_ok in Hload as [_ ->]; apply silent_refl]. }
     clear Hload.
-    apply bind_ok in H as (u8 & s2 & H0 & H). apply alloc_quiet in H0.
-    apply bind_ok in H as (u9 & s3 & H1 & H). apply alloc_quiet in H1.
-    apply bind_ok in H as (u10 & s4 & H2 & H). apply alloc_quiet in H2.
-    assert (Q4 : quiet s s4) by (eauto using quiet_trans). clear H0 H1 H2 Q1.
+    apply bind_ok in H as (u8 & s2 & H0 & H). apply alloc_silent in H0.
+    apply bind_ok in H as (u9 & s3 & H1 & H). apply alloc_silent in H1.
+    apply bind_ok in H as (u10 & s4 & H2 & H). apply alloc_silent in H2.
+    assert (Q4 : silent s s4) by (eauto using silent_trans). clear H0 H1 H2 Q1.
     apply bind_ok in H as ([lst lgs] & s5 & Hloop & H).
     assert (Hne : multi_dst i <> i_caller i).
     { intros Heq. rewrite Heq, beqb_refl in G2. discriminate. }
@@ -432,13 +432,13 @@ Section Multi.
     { intros Heq. rewrite Heq in G4. discriminate. }
     destruct Hfuel as [Hsnd Hlen]; [lia|]. rewrite N2Nat.id in Hlen.
     apply bind_ok in H as (u11 & s6 & Hsave & H).
-    assert (Q6 : quiet s5 s6).
-    { destruct (multi_same i); [apply rd_quiet; eapply save_account_ok; eauto|apply ret_ok in Hsave as [_ ->]; apply quiet_refl]. }
+    assert (Q6 : silent s5 s6).
+    { destruct (multi_same i); [apply rd_silent; eapply save_account_ok; eauto|apply ret_ok in Hsave as [_ ->]; apply silent_refl]. }
     clear Hsave.
-    apply bind_ok in H as (u12 & s7 & H0 & H). apply alloc_quiet in H0.
+    apply bind_ok in H as (u12 & s7 & H0 & H). apply alloc_silent in H0.
     apply bind_ok in H as ([args' o1] & s8 & Hout & H).
     apply multi_out_args_spec in Hout as (-> & -> & Q8 & _ & _).
-    assert (Q58 : quiet s5 s8) by (eauto using quiet_trans). clear Q6 H0 Q8.
+    assert (Q58 : silent s5 s8) by (eauto using silent_trans). clear Q6 H0 Q8.
     cbn [o_gasRemaining set_logs mk_out] in H.
     apply bind_ok in H as (rest & s9 & H0 & H).
     assert (Hrest : rest = skipn (N.to_nat (multi_min 2 (multi_n_snd i))) (i_args i) /\ s9 = s8).
@@ -682,7 +682,7 @@ Section Multi.
     mq_n_le : (multi_n_dst i <= alen (i_args i) / 3)%N;
     mq_min : (multi_min 1 (multi_n_dst i) <= alen (i_args i))%N;
     mq_len : (1 + multi_n_dst i * 3 <= alen (i_args i))%N;
-    mq_steps : exists s0, quiet s s0
+    mq_steps : exists s0, silent s s0
        /\ dst_steps (i_rcpt i) (must_verify_payable i (multi_min 1 (multi_n_dst i))) (i_rae i) (multi_dst_triples i) s0 s';
     mq_out : o = multi_dest_out i }.
 
@@ -705,7 +705,7 @@ Section Multi.
     apply bind_ok in H as (u4 & s0 & H0 & H). apply guard_ok in H0 as [G3 ->].
     apply bind_ok in H as (u5 & s0 & H0 & H). apply guard_ok in H0 as [G4 ->].
     apply bind_ok in H as (u6 & s0 & H0 & H). apply guard_ok in H0 as [G5 ->].
-    apply bind_ok in H as (u7 & s1 & H0 & H). apply alloc_quiet in H0.
+    apply bind_ok in H as (u7 & s1 & H0 & H). apply alloc_silent in H0.
     apply bind_ok in H as (logs & s2 & Hloop & H).
     apply multi_dest_loop_spec in Hloop as (Hfuel & -> & Hsteps). cbn [rev app] in H.
     assert (Hnpos : multi_n_dst i <> 0%N).
